@@ -15,9 +15,10 @@ import (
 
 func init() {
 	register(&propCheck{
-		ID:    "C05",
-		Run:   runC05,
-		Level: "Static analysis (write records of every encoder and read records of every decoder from the abstract interpreter, compared per kind; dispatcher tables against constructor codes; syntactic guard rule). Decides sibling agreement, a NECESSARY structural part of the round trip: mirror/<kind>/<field> — every receiver field the encoder writes at a fixed or symbolic offset is read back by the decoder from the same offset, with the same width and byte order, into the same field, and every field the decoder fills is one the encoder wrote at that offset (child encodings ↔ child decodings likewise, list loops by their base offset and the list they fill); trailing/<decoder> — no decoder tests the input length for equality (an element followed by others must still decode); codes/<dispatcher>/<code> — the type code each constructor stores selects, in the dispatcher that decodes that family (Parse, DecodeAction, DecodeNxAction, DecodeInstr), the kind that constructor returns; retain/<decoder>/<loop> — the element decoded in each iteration of a list loop is stored into the receiver. Not decided: equality of values (follows from the records only for fields copied verbatim); optional parts whose presence the two sides decide differently (encoder: pointer non-nil, decoder: flag bit) are compared by offset inside their guards only; packed bit fields are C09/C15's lanes rule; kinds whose Go representation is not canonical (net.IP of 4 vs 16 bytes).",
+		ID:      "C05",
+		Run:     runC05,
+		NeedSSA: true,
+		Level:   "Static analysis (write records of every encoder and read records of every decoder from the abstract interpreter, compared per kind; dispatcher tables against constructor codes; syntactic guard rule). Decides sibling agreement, a NECESSARY structural part of the round trip: mirror/<kind>/<field> — every receiver field the encoder writes at a fixed or symbolic offset is read back by the decoder from the same offset, with the same width and byte order, into the same field, and every field the decoder fills is one the encoder wrote at that offset (child encodings ↔ child decodings likewise, list loops by their base offset and the list they fill); trailing/<decoder> — no decoder tests the input length for equality (an element followed by others must still decode); codes/<dispatcher>/<code> — the type code each constructor stores selects, in the dispatcher that decodes that family (Parse, DecodeAction, DecodeNxAction, DecodeInstr), the kind that constructor returns; retain/<decoder>/<loop> — the element decoded in each iteration of a list loop is stored into the receiver. Not decided: equality of values (follows from the records only for fields copied verbatim); optional parts whose presence the two sides decide differently (encoder: pointer non-nil, decoder: flag bit) are compared by offset inside their guards only; packed bit fields are C09/C15's lanes rule; kinds whose Go representation is not canonical (net.IP of 4 vs 16 bytes).",
 		Assumptions: []string{
 			"constructor-established widths of fixed-size fields (reviewed table in checker/premises.go) hold for encoder-side offsets",
 			"spec/codes.json constructor→code tables",
@@ -61,6 +62,18 @@ func fieldOfSrc(src string) (string, string) {
 }
 
 func runC05(w *World, r *Report) {
+	r.Rule("oxmcodes", "every class/field number a match-field constructor stores has a decoding case in the match-field dispatcher", 30)
+	{
+		r2 := NewReport(r.Prop, r.Tier)
+		w.oxmDispatchRule(r2, "oxmcodes", true)
+		for _, o := range r2.Obs {
+			if strings.HasPrefix(o.Instance, "covered:") || o.Verdict != VOK {
+				r.Add(o)
+			}
+		}
+	}
+	r.Rule("stateless", "encoders and decoders depend on no package-level state that a call can change (pooled buffers, caches, shared table entries)", 8)
+	importStateless(w, r, "stateless")
 	r.Rule("mirror", "fields written by an encoder are read back from the same offset, width and byte order into the same field, and vice versa", 300)
 	r.Rule("trailing", "decoders test the input length with lower bounds only", 60)
 	r.Rule("codes", "the code a constructor stores selects, in the dispatcher, the kind that constructor returns", 30)
